@@ -180,6 +180,7 @@ func GenStack(t *rapid.T) StackCase {
 	c.OptOut = c.Decl == "global" && rapid.Bool().Draw(t, "opt-out-sibling")
 	c.HandlerErr = rapid.Bool().Draw(t, "handler-observes-request")
 	c.LateAuthz = rapid.IntRange(0, 3).Draw(t, "authorizer-registered-late") == 0
+	c.TypeNamed = rapid.IntRange(0, 2).Draw(t, "definitions-named-like-their-type") == 0
 	for i := range c.Alts {
 		if !c.Alts[i].Anon && rapid.IntRange(0, 7).Draw(t, "empty-named-entry") == 0 {
 			c.Alts[i].EmptyName = true
@@ -215,6 +216,12 @@ func ClassifyStack(c StackCase) (bool, []string) {
 		if a.EmptyName && !a.Anon {
 			labels = append(labels, "requirement object with an entry under the empty name")
 			break
+		}
+	}
+	if c.TypeNamed {
+		labels = append(labels, "unrequired definitions named like their type, with authenticators")
+		if len(c.Unreg) > 0 {
+			labels = append(labels, "required scheme without authenticator next to a registered definition named like its type")
 		}
 	}
 	if len(c.Undef) > 0 {
